@@ -56,6 +56,16 @@ def pipeline_liveness(ctx):
     ctx.tlc_model("PipelineMC", "live.cfg", files={"live.cfg": live_cfg()}, timeout=900, workers=8)
 
 
+def dyn_workers_model(ctx):
+    """beyond the listed property, model only (not bound: the policy is an inline loop on a 120 s ticker): DynWorkers.tla - when
+    the listeners add workers and when they tell them to quit.  Settled system: counter = live workers = pooled quit channels,
+    never below the configured number, never above maxWorkers, every started worker runs.  The unsettled system (a round's
+    test reads the counter before the previous round's goroutines incremented it) must be refuted twice."""
+    ctx.tlc_model("DynWorkersMC", "DynWorkersMC.cfg", workers=2, timeout=300)
+    ctx.tlc_must_fail("DynWorkersMC", "DynWorkersRace.cfg", expect="BoundedWhenSettled", workers=2, timeout=300)
+    ctx.tlc_must_fail("DynWorkersMC", "DynWorkersBlocked.cfg", expect="temporal", workers=2, timeout=300)
+
+
 def pipeline_model(ctx, thorough, retire=False):
     """the pipeline model at the tier's size: quick 3 datagrams / 3 buffers (1.07 M states, 6 s) and, with retire, 2 data
     datagrams / 4 buffers / one worker told to quit (4.7 M, 22 s); thorough 3 datagrams / 4 buffers / retire (28 M, 100 s)"""
@@ -365,6 +375,7 @@ def check(ctx, want="C12"):
                             "sFlow's ColTime (wall clock) is masked"]
         pipeline_model(ctx, thorough)
         pipeline_liveness(ctx)
+        dyn_workers_model(ctx)
         for sw, exp in (("early", "NoUseAfterPut"), ("alias", "PublishedIsOwn"), ("close", "NoPanic")):
             d = dict(dg="MCDgrams2", bufs="b1, b2, b3, b4")
             d[sw] = "TRUE" if sw != "close" else "FALSE"
